@@ -33,7 +33,8 @@ FV_SIMD = dict(file="src/lib.rs", name="fv_simd", vis="pub(crate) ", code=MODEL_
 # Intrinsics with a model in simd_models.rs that Kani 0.68 executes itself on their std::arch implementation (measured with the probe
 # described in the K9 report: model == std::arch body for all inputs): no model is substituted for them - fewer assumptions, and the
 # AVX2 kernels stay below the number of kani::stub attributes rustc can expand on one harness.
-NATIVE_OK = {"mm256_inserti128_si256", "mm256_insertf128_si256", "mm256_extracti128_si256", "mm256_castsi128_si256", "mm256_castsi256_si128", "mm_srai_epi32", "mm256_srai_epi32"}
+NATIVE_OK = {"mm256_inserti128_si256", "mm256_insertf128_si256", "mm256_extracti128_si256", "mm256_castsi128_si256", "mm256_castsi256_si128",
+             "mm_srai_epi32", "mm256_srai_epi32", "mm_extract_epi64", "mm_shuffle_epi32"}
 
 MAX_STUBS = 12  # rustc attribute-expansion recursion limit (measured in e4_simd_alpha.py)
 
@@ -194,19 +195,17 @@ VERT_COMMON = """
     }
 """
 
-# windows of 1, 2, 3 and 5 rows over 5 source rows; sums above and below 2^p, negative taps
-VERT_TABLES = dict(
-    a=(14, groups_of(14, [(4, 1), (3, 2), (2, 3), (0, 5), (0, 4), (1, [32767, -32768, 4097])], 100)),
-    b=(12, groups_of(12, [(1, 2), (2, 1), (0, 3)], 200)),
-)
-# (case name, pixel type, cc, dst width in pixels, column offset, src height, table)
-# dst row = dw*cc components: 32-chunks, then 8-chunks, then ONE 4-chunk, then native tail of 1..3
+# (case name, pixel type, cc, dst width in pixels, column offset, src height, precision, windows (start row, number of taps | taps))
+# dst row = dw*cc components: 32-chunks, then 8-chunks, then ONE 4-chunk, then the native tail of 1..3 components (called with the kernel's own rounding constant).
+# Window lengths: 2 = the two-rows loop alone, 3 = loop + odd last row, 1 = odd last row alone, 5 = two loop iterations + odd row.
+# One window per harness for the 47-component row (cost: 5 - 15 s of SAT time per destination byte).
 VERT_CASES = [
-    ("u8_w47", "U8", 1, 47, 1, 5, "a"),      # 32 + 8 + 4 + 3
-    ("u8_w71", "U8", 1, 71, 0, 3, "b"),      # 32 + 32 + 4 + 3   (no 8-chunk)
-    ("u8x4_w3", "U8x4", 4, 3, 1, 3, "b"),    # 8 + 4
-    ("u8x3_w5", "U8x3", 3, 5, 0, 3, "b"),    # 8 + 4 + 3
-    ("u8x2_w9", "U8x2", 2, 9, 2, 3, "b"),    # 8 + 8 + 2
+    ("u8_w47_t2", "U8", 1, 47, 1, 3, 14, [(1, 2)]),          # 32 + 8 + 4 + 3 components
+    ("u8_w47_t3", "U8", 1, 47, 0, 3, 14, [(0, 3)]),
+    ("u8_w47_t1", "U8", 1, 47, 2, 3, 12, [(2, 1)]),
+    ("u8x4_w3", "U8x4", 4, 3, 1, 5, 12, [(0, 5), (3, [32767, 32767])]),    # 8 + 4; second window: saturation of PACKSSDW / PACKUSWB against the clamp of clip
+    ("u8x3_w5", "U8x3", 3, 5, 0, 3, 13, [(0, 3)]),           # 8 + 4 + 3
+    ("u8x2_w9", "U8x2", 2, 9, 2, 3, 15, [(1, 2)]),           # 8 + 8 + 2
 ]
 
 
@@ -228,8 +227,8 @@ def vert_module(isa):
     stubs, used = stubs_for([_fn_body(F, "vert_convolution_into_one_row")])
     code = VERT_COMMON
     hs = []
-    for name, ty, cc, dw, off, sh, tab in VERT_CASES:
-        p, groups = VERT_TABLES[tab]
+    for name, ty, cc, dw, off, sh, p, specs in VERT_CASES:
+        groups = groups_of(p, specs, 100 + dw)
         sw = dw + off
         dn = dw * 2 * cc + SPARE
         k = dict(isa=isa, name=name, stubs=stubs, src=src_decl(ty, cc, sw, sh), dn=dn, unw=dn + 3,
@@ -252,100 +251,136 @@ def vert_module(isa):
 
 
 # ------------------------------------------------------------------------------------------------------------------ horizontal
+# Cost model (measured): every destination byte costs CBMC 5 - 15 s of SAT time (two differently associated sums of products plus the
+# memory model of the loads / stores), growing with the number of taps.  The horizontal kernels are therefore checked in three layers:
+#   four_rows_* : horiz_convolution_four_rows::<14> called directly (4 source rows, 4 destination rows), window lengths / positions reaching every tap stage
+#   one_row_*   : horiz_convolution_one_row::<14> called directly (1 row), ditto (long windows are affordable here: 1 row)
+#   dispatch_*  : horiz_convolution (constify_imm8! dispatcher, iter_4_rows pass + `height % 4` leftover rows) with short windows for heights 3, 5, 6,
+#                 and every precision 12 ..= 21
 HORIZ_COMMON = """
     use crate::convolution::optimisations::fv_norm::*;
     use crate::fv_k9s::*;
     use crate::images::TypedImage;
 
-    /// SIMD and native horizontal kernels on the same source rows offset .. offset + dh; destination (number of windows) x dh
+    fn dst_image<'a>(buf: &'a mut [u8], dw: u32, dh: u32) -> TypedImage<'a, %(ty)s> {
+        let dpx: &mut [%(ty)s] = unsafe { core::slice::from_raw_parts_mut(buf.as_mut_ptr() as *mut %(ty)s, (dw * dh) as usize) };
+        TypedImage::from_pixels_slice(dw, dh, dpx).unwrap()
+    }
+
+    /// the dispatcher: SIMD and native horizontal kernels on source rows offset .. offset + dh; destination (number of windows) x dh
     fn run<const SH: usize>(src: &FvRows<%(ty)s, SH>, dh: u32, offset: u32, n: &Normalizer16, stale: &[u8], d_simd: &mut [u8], d_nat: &mut [u8]) {
         let dw = n.chunks().len() as u32;
-        let dn = (dw * dh) as usize;
+        horiz_convolution(src, &mut dst_image(d_simd, dw, dh), offset, n);
+        crate::convolution::%(d)s::native::horiz_convolution(src, &mut dst_image(d_nat, dw, dh), offset, n);
+        same_output((dw * dh) as usize * %(cc)d, stale, d_simd, d_nat);
+    }
+
+    /// horiz_convolution_four_rows::<14> on the 4 rows of `src` against the native kernel on the same rows
+    fn run4(src: &FvRows<%(ty)s, 4>, n: &Normalizer16, stale: &[u8], d_simd: &mut [u8], d_nat: &mut [u8]) {
+        let dw = n.chunks().len();
         {
-            let dpx: &mut [%(ty)s] = unsafe { core::slice::from_raw_parts_mut(d_simd.as_mut_ptr() as *mut %(ty)s, dn) };
-            let mut d = TypedImage::from_pixels_slice(dw, dh, dpx).unwrap();
-            horiz_convolution(src, &mut d, offset, n);
+            let p = d_simd.as_mut_ptr() as *mut %(ty)s;
+            let rows: [&mut [%(ty)s]; 4] = unsafe { [core::slice::from_raw_parts_mut(p, dw), core::slice::from_raw_parts_mut(p.add(dw), dw),
+                                                   core::slice::from_raw_parts_mut(p.add(2 * dw), dw), core::slice::from_raw_parts_mut(p.add(3 * dw), dw)] };
+            unsafe { horiz_convolution_four_rows::<14>(src.rows, rows, n) };
         }
+        crate::convolution::%(d)s::native::horiz_convolution(src, &mut dst_image(d_nat, dw as u32, 4), 0, n);
+        same_output(dw * 4 * %(cc)d, stale, d_simd, d_nat);
+    }
+
+    /// horiz_convolution_one_row::<14> on the single row of `src` against the native kernel
+    fn run1(src: &FvRows<%(ty)s, 1>, n: &Normalizer16, stale: &[u8], d_simd: &mut [u8], d_nat: &mut [u8]) {
+        let dw = n.chunks().len();
         {
-            let dpx: &mut [%(ty)s] = unsafe { core::slice::from_raw_parts_mut(d_nat.as_mut_ptr() as *mut %(ty)s, dn) };
-            let mut d = TypedImage::from_pixels_slice(dw, dh, dpx).unwrap();
-            crate::convolution::%(d)s::native::horiz_convolution(src, &mut d, offset, n);
+            let row: &mut [%(ty)s] = unsafe { core::slice::from_raw_parts_mut(d_simd.as_mut_ptr() as *mut %(ty)s, dw) };
+            unsafe { horiz_convolution_one_row::<14>(src.rows[0], row, n) };
         }
-        same_output(dn * %(cc)d, stale, d_simd, d_nat);
+        crate::convolution::%(d)s::native::horiz_convolution(src, &mut dst_image(d_nat, dw as u32, 1), 0, n);
+        same_output(dw * %(cc)d, stale, d_simd, d_nat);
     }
 """
 
 HSW = 16  # source width of the horizontal cases
-# u8x4: tap stages 8 / 4 / 2 / 1 (one row) and 4 / 2 / 1 (four rows); AVX2 one row: < 8 taps -> 2 / 1 only, >= 8 taps -> 8 / 4 then 2 / 1.
-# every length has a window that ends at the last pixel of the row
-U8X4_WINS = [(15, 1), (0, 2), (13, 3), (12, 4), (0, 5), (9, 7), (8, 8), (0, 9), (4, 12), (1, 15), (0, 16), (3, 13), (14, [32767, 32767]), (2, [-32768, 4000, 20000])]
-# u8x3: the vector stages are guarded by the distance to the end of the row (W - 9 / W - 5 / W - 2): windows at the start, in the middle, across
-# every guard and at the very end of the row
-U8X3_WINS = [(0, 1), (0, 2), (0, 3), (0, 7), (0, 9), (0, 16), (8, 8), (5, 11), (13, 3), (15, 1), (12, 4), (10, 5), (6, 10), (3, 12), (11, 4), (14, 2), (7, 9), (9, [32767, -32768, 5000, 300, 5])]
+HUGE = (14, [32767, 32767])          # saturation of PACKSSDW / PACKUSWB against the clamp of Normalizer16::clip
 HORIZ = dict(
-    u8x4=dict(ty="U8x4", cc=4, wins=U8X4_WINS),
-    u8x3=dict(ty="U8x3", cc=3, wins=U8X3_WINS),
+    # u8x4: tap stages 4 / 2 / 1 (four rows), 8 / 4 / 2 / 1 (one row; AVX2: < 8 taps -> 2 / 1 only, >= 8 taps -> 8 / 4 with the halved initial accumulator, then 2 / 1).
+    # Loads are whole pixels (16 / 8 / 4 bytes = 4 / 2 / 1 pixels): windows ending at the last pixel of the row guard the row end.
+    u8x4=dict(ty="U8x4", cc=4,
+              four=[(9, 7), (7, 9), (14, 2), (15, 1), (13, 3), HUGE],
+              one=[(1, 15), (7, 9), (9, 7), (13, 3), (4, 12), (0, 16), (15, 1), HUGE],
+              one_per=1),
+    # u8x3: vector loads of 16 / 8 bytes (5 1/3 and 2 2/3 pixels) are guarded by the distance to the row end: x < W - 5 (4 taps), x < W - 2 (2 taps),
+    # AVX2 one row: x < W - 9 (8 taps); the rest goes tap by tap.  Windows at the start, across every guard and at the very end of the row.
+    u8x3=dict(ty="U8x3", cc=3,
+              four=[(0, 7), (8, 8), (13, 3), (11, 4), (10, 5), (14, 2)],
+              one=[(0, 16), (6, 10), (7, 9), (3, 12), (0, 7), (13, 3), (8, 8), (11, 4), (10, 5), (14, 2)],
+              one_per=2),
 )
-# (case, dst height, row offset, src height, window subset or None = all, groups per harness)
-HORIZ_CASES = [
-    ("h5", 5, 1, 6, None, 3),          # four_rows on rows 1..4, one_row on row 5
-    ("h6", 6, 0, 6, [4, 7, 9], 2),     # two leftover rows
-    ("h3", 3, 1, 4, [5, 8], 2),        # no four_rows pass, three leftover rows
-]
+DISPATCH_CASES = [("h5", 5, 1, 6), ("h6", 6, 0, 6), ("h3", 3, 1, 4)]      # (case, dst height, first source row, source height)
 PRECISIONS = list(range(12, 22))
+
+
+def harness_text(name, stubs, src, dn, calls):
+    return """
+    #[kani::proof]
+    #[kani::unwind(%d)]
+%s    fn %s() {
+%s        let stale: [u8; %d] = kani::any();
+%s    }
+""" % (max(dn, 20) + 3, stubs, name, src, dn, calls)
 
 
 def horiz_module(d, isa):
     F = "src/convolution/%s/%s.rs" % (d, isa)
     info = HORIZ[d]
     ty, cc = info["ty"], info["cc"]
-    stubs, used = stubs_for([_fn_body(F, "horiz_convolution_four_rows"), _fn_body(F, "horiz_convolution_one_row")])
+    s4, u4 = stubs_for([_fn_body(F, "horiz_convolution_four_rows")])
+    s1, u1 = stubs_for([_fn_body(F, "horiz_convolution_one_row")])
+    sb, ub = stubs_for([_fn_body(F, "horiz_convolution_four_rows"), _fn_body(F, "horiz_convolution_one_row")])
     code = HORIZ_COMMON % dict(ty=ty, d=d, cc=cc)
     hs = []
-    for case, dh, off, sh, subset, per in HORIZ_CASES:
-        specs = info["wins"] if subset is None else [info["wins"][i] for i in subset]
-        groups = groups_of(14, specs, 300 + len(case))
-        for part in range(0, len(groups), per):
-            gs = groups[part:part + per]
-            name = "k9_%s_%s_%s" % (d, isa, case) + ("" if len(groups) <= per else "_w%d" % (part // per))
-            dn = 2 * dh * cc + SPARE
-            k = dict(name=name, stubs=stubs, src=src_decl(ty, cc, HSW, sh), dn=dn, unw=max(dn, 20) + 3,
-                     calls=call_groups("run::<%d>(&src, %d, %d, &n, &stale, &mut d_simd, &mut d_nat);" % (sh, dh, off), 14, gs))
-            code += """
-    #[kani::proof]
-    #[kani::unwind(%(unw)d)]
-%(stubs)s    fn %(name)s() {
-%(src)s        let stale: [u8; %(dn)d] = kani::any();
-%(calls)s    }
-""" % k
-            hs.append(dict(name=name, kind="bounded", covers=2, timeout=1500, props=PROPS,
-                           bound="%s source %dx%d (every row the tail of its own allocation), destination rows = source rows %d .. %d (%d four-row passes + %d single rows); precision 14, "
-                                 "windows (start, taps) = %s (run in groups of <= 2 windows = destination pixels); ALL pixel values; stale destination arbitrary"
-                                 % (ty, HSW, sh, off, off + dh, dh // 4, dh % 4, "; ".join(rs_windows(g) for g in gs)),
-                           claim="%s::%s::horiz_convolution == %s::native::horiz_convolution byte for byte (four-rows and one-row variants, every tap stage reached by these window lengths / positions), "
-                                 "no access outside any source row, spare destination bytes untouched" % (d, isa, d)))
-    # every precision the dispatcher can instantiate for a regular filter (constify_imm8!: 12 ..= 21)
+    # --- four rows, direct
+    groups = groups_of(14, info["four"], 300)
+    for gi, g in enumerate(groups):
+        name = "k9_%s_%s_four_rows_w%d" % (d, isa, gi)
+        dn = 2 * 4 * cc + SPARE
+        code += harness_text(name, s4, src_decl(ty, cc, HSW, 4), dn, call_groups("run4(&src, &n, &stale, &mut d_simd, &mut d_nat);", 14, [g]))
+        hs.append(dict(name=name, kind="bounded", covers=2, timeout=1500, props=PROPS,
+                       bound="%s, 4 source rows of %d pixels (each the tail of its own allocation); precision 14, windows (start, taps) = %s; ALL pixel values; stale destination arbitrary" % (ty, HSW, rs_windows(g)),
+                       claim="%s::%s::horiz_convolution_four_rows::<14> == %s::native::horiz_convolution on the same 4 rows, byte for byte; no access outside any source row; spare destination bytes untouched" % (d, isa, d)))
+    # --- one row, direct
+    groups = groups_of(14, info["one"], 400)
+    per = info["one_per"]
+    for part in range(0, len(groups), per):
+        gs = groups[part:part + per]
+        name = "k9_%s_%s_one_row_w%d" % (d, isa, part // per)
+        dn = 2 * cc + SPARE
+        code += harness_text(name, s1, src_decl(ty, cc, HSW, 1), dn, call_groups("run1(&src, &n, &stale, &mut d_simd, &mut d_nat);", 14, gs))
+        hs.append(dict(name=name, kind="bounded", covers=2, timeout=1500, props=PROPS,
+                       bound="%s, 1 source row of %d pixels (the tail of its allocation); precision 14, windows (start, taps) = %s; ALL pixel values; stale destination arbitrary" % (ty, HSW, "; ".join(rs_windows(g) for g in gs)),
+                       claim="%s::%s::horiz_convolution_one_row::<14> == %s::native::horiz_convolution on the same row, byte for byte; no access outside the source row; spare destination bytes untouched" % (d, isa, d)))
+    # --- dispatcher: row routing for heights 5, 6, 3
+    g = groups_of(14, [(HSW - 2, 2), (HSW - 1, 1)], 600)
+    for case, dh, off, sh in DISPATCH_CASES:
+        name = "k9_%s_%s_dispatch_%s" % (d, isa, case)
+        dn = 2 * dh * cc + SPARE
+        code += harness_text(name, sb, src_decl(ty, cc, HSW, sh), dn, call_groups("run::<%d>(&src, %d, %d, &n, &stale, &mut d_simd, &mut d_nat);" % (sh, dh, off), 14, g))
+        hs.append(dict(name=name, kind="bounded", covers=2, timeout=1500, props=PROPS,
+                       bound="%s source %dx%d, destination rows = source rows %d .. %d (%d four-row pass(es) + %d leftover row(s)); precision 14, windows %s; ALL pixel values" % (ty, HSW, sh, off, off + dh, dh // 4, dh % 4, rs_windows(g[0])),
+                       claim="%s::%s::horiz_convolution == native: the four-row passes and the `height %% 4` leftover rows take the right source rows and write the right destination rows" % (d, isa)))
+    # --- dispatcher: every precision the dispatcher instantiates for a regular filter
     name = "k9_%s_%s_precisions" % (d, isa)
     dh, off, sh = 5, 0, 5
-    dn = 2 * dh * cc + SPARE
+    dn = dh * cc + SPARE
     calls = ""
     for p in PRECISIONS:
-        calls += call_groups("run::<%d>(&src, %d, %d, &n, &stale, &mut d_simd, &mut d_nat);" % (sh, dh, off), p,
-                             groups_of(p, [(HSW - 9, 9), (HSW - 3, 3)], 500 + p), cover_first=(p == PRECISIONS[0]))
-    k = dict(name=name, stubs=stubs, src=src_decl(ty, cc, HSW, sh), dn=dn, unw=max(dn, 20) + 3, calls=calls)
-    code += """
-    #[kani::proof]
-    #[kani::unwind(%(unw)d)]
-%(stubs)s    fn %(name)s() {
-%(src)s        let stale: [u8; %(dn)d] = kani::any();
-%(calls)s    }
-""" % k
+        calls += call_groups("run::<%d>(&src, %d, %d, &n, &stale, &mut d_simd, &mut d_nat);" % (sh, dh, off), p, groups_of(p, [(HSW - 3, 3)], 500 + p), cover_first=(p == PRECISIONS[0]))
+    code += harness_text(name, sb, src_decl(ty, cc, HSW, sh), dn, calls)
     hs.append(dict(name=name, kind="bounded", covers=2, timeout=1500, props=PROPS,
-                   bound="%s source %dx%d, destination 2x%d; for EVERY precision 12 ..= 21 one window of 9 taps and one of 3 taps ending at the last pixel (taps generated per precision, "
-                         "sums 2^p + 3 and 2^p - 5); ALL pixel values" % (ty, HSW, sh, dh),
-                   claim="%s::%s::horiz_convolution == native for every const PRECISION instantiation 12 ..= 21 of the dispatcher (constify_imm8!)" % (d, isa)))
+                   bound="%s source %dx%d, destination 1x%d; for EVERY precision 12 ..= 21 one window of 3 taps ending at the last pixel (taps generated per precision); ALL pixel values" % (ty, HSW, sh, dh),
+                   claim="%s::%s::horiz_convolution == native for every const PRECISION instantiation 12 ..= 21 of the dispatcher (constify_imm8!), four-row and one-row variants" % (d, isa)))
     return (dict(file=F, name="fv_k9", code=code), hs,
-            [dict(file=F, fn="horiz_convolution"), dict(file=F, fn="horiz_convolution_p"), dict(file=F, fn="horiz_convolution_four_rows"), dict(file=F, fn="horiz_convolution_one_row")], used)
+            [dict(file=F, fn="horiz_convolution"), dict(file=F, fn="horiz_convolution_p"), dict(file=F, fn="horiz_convolution_four_rows"), dict(file=F, fn="horiz_convolution_one_row")], set(u4) | set(u1) | set(ub))
 
 
 _mods, _hs, _fns, _used = [SUPPORT, FV_SIMD, K9S], [], [], set()
